@@ -503,7 +503,16 @@ func (e *Engine) callByContract(st *State, fn *ssa.Function, ct *Contract, args 
 			}
 		}
 	}
-	st.addTrace(TraceEv{Kind: "call:" + ct.Short, Pos: pos, Args: args, Extra: snap})
+	argNil := map[string]Term{}
+	for i, a := range args {
+		if iv, ok := a.(VIface); ok {
+			a = iv.V
+		}
+		if p, ok := a.(VPtr); ok {
+			argNil[fmt.Sprintf("targetnil%d", i)] = e.isNilTerm(st, e.load(st, p))
+		}
+	}
+	st.addTrace(TraceEv{Kind: "call:" + ct.Short, Pos: pos, Args: args, Extra: snap, Terms: argNil})
 	// requires at the call site
 	envR := &rEnv{e: e, pre: pre, post: st, vars: copyVars(vars), typs: typs, specs: e.contracts.specs, pol: 1}
 	for _, l := range ct.Lets {
@@ -636,7 +645,7 @@ func (e *Engine) genericLoopHeader(st *State, fr *Frame, b *ssa.BasicBlock) (han
 		return false, false
 	}
 	cls := e.loopInvariants(fr.fn, ord)
-	if cls == nil {
+	if cls == nil || e.unrollAll {
 		return false, false
 	}
 	// map-range loops over symbolic maps are handled at the Next instruction
